@@ -336,7 +336,7 @@ func (ex *Exec) modSpecs(fr *Frame, ct *Contract) []modSpec {
 						if absent {
 							continue
 						}
-						but[typeKey(t)] = true
+						but[butKey(t)] = true
 					}
 					out = append(out, modSpec{kind: "everything_but", but: but})
 					continue
@@ -616,7 +616,7 @@ func (ex *Exec) frameObligations(fr *Frame, out *State, ct *Contract, kind strin
 		}
 		if but, ok := butFor(mods); ok {
 			switch w.Kind {
-			case "field", "structfamily":
+			case "field", "structfamily", "map", "mapfamily":
 				if !but[w.Key] {
 					goal = True
 				}
